@@ -103,12 +103,21 @@ def houdini(c, log):
         c.inv("h:" + n, e)
 
 
+def _probe_baseline():
+    p = os.path.join(ROOT, "probe_baseline.json")
+    return json.load(open(p)) if os.path.exists(p) else {}
+
+
 def build_contracts(mod, prop, tier, seed):
     ctxs, problems = [], []
+    baseline = _probe_baseline().get(prop, {})
+    record = {} 
     for entry in mod.contracts(tier):
         unit_name, cfg_name, fn = entry[:3]
         c = Ctx(prop, unit_name, cfg_name, tier=tier, seed=seed)
         c.log = {}
+        from hwv import extract as _ex
+        _ex.REFERENCE_REGS = dict(baseline.get(c.name, {}).get("__regs__", {}))
         try:
             fn(c)
             houdini(c, c.log)
@@ -124,7 +133,25 @@ def build_contracts(mod, prop, tier, seed):
             # zero-width): this configuration is not decided; the others still are
             problems.append(("contract-error", c.name, traceback.format_exc()[-900:]))
             continue
+        probes = {}
+        regs = {}
+        for u in c.units:
+            probes.update(u.probes)
+            for k_, v_ in u.state.items():
+                if k_[0] == "ff":
+                    regs[u._strip(str(v_))] = v_.size()
+            for rb in u.rebound:
+                c.degraded.append("followed a rename: " + rb)
+        probes["__regs__"] = regs
+        record[c.name] = probes
+        for name, ok in probes.items():
+            if name != "__regs__" and not ok and baseline.get(c.name, {}).get(name) is True:
+                c.degraded.append(f"optional name {name} resolved on the reference tree but not on this one")
         ctxs.append(c)
+    if os.environ.get("HWV_RECORD_PROBES") and not os.environ.get("HWV_REPO"):
+        allb = _probe_baseline()
+        allb.setdefault(prop, {}).update(record)
+        json.dump(allb, open(os.path.join(ROOT, "probe_baseline.json"), "w"), indent=0, sort_keys=True)
     return ctxs, problems
 
 
@@ -330,7 +357,10 @@ def main(prop, tier, seed):
         else:
             failed.setdefault(ci, []).append(r)
     if not obs:
-        broken.append("zero obligations generated")
+        if undecided and not broken and not soft_broken:
+            pass            # every configuration's contract failed to bind: undecided, not a checker failure
+        else:
+            broken.append("zero obligations generated")
 
     violations, known_lines = [], []
     kf = known_findings(prop)
